@@ -645,6 +645,67 @@ def vary_calls(rec, calls, rng, limit=None):
     return n
 
 
+# ---- tools layer: the tool wrappers run with esttool='dummy' (no external program): the workflow builders, candidate
+# generators and post-processing helpers of pharmpy/tools run for real, on a model whose snapshot is compared afterwards;
+# every model the tool stored in its context goes to the well-formedness check
+TOOL_RUNS = {
+    'modelsearch': lambda pt, m, res, p: pt.run_modelsearch('ABSORPTION([FO,ZO]);PERIPHERALS([0,1])', 'exhaustive', model=m,
+                                                           results=res, esttool='dummy', path=p),
+    'allometry': lambda pt, m, res, p: pt.run_allometry(model=m, results=res, allometric_variable='WGT', esttool='dummy', path=p),
+    'covsearch': lambda pt, m, res, p: pt.run_covsearch('COVARIATE([CL],[APGR],exp)', model=m, results=res, esttool='dummy', path=p),
+    'iivsearch': lambda pt, m, res, p: pt.run_iivsearch('top_down_exhaustive', model=m, results=res, esttool='dummy', path=p),
+    'ruvsearch': lambda pt, m, res, p: pt.run_ruvsearch(model=m, results=res, esttool='dummy', path=p),
+}
+
+
+def run_tool_job(rec, tool, workdir):
+    import os
+    import tempfile
+    np, pd, pm, Model = _imports()
+    import pharmpy.tools as pt
+    from pharmpy.workflows import LocalDirectoryContext
+    os.makedirs(workdir, exist_ok=True)
+    tmpd = os.path.join(workdir, 'tmp')
+    os.makedirs(tmpd, exist_ok=True)
+    os.environ['TMPDIR'] = tmpd
+    tempfile.tempdir = tmpd
+    # the HTML report step (sphinx + a jupyter kernel) is not part of the property: replaced in THIS process only
+    import pharmpy.tools.reporting as _rep
+    _rep.create_report = lambda *a_, **k_: None
+    m = pm.load_example_model('pheno')
+    res = pt.load_example_modelfit_results('pheno')
+    before = snapshot(m)
+    pe_before = res.parameter_estimates.copy(deep=True)
+    path = os.path.join(workdir, 'ctx_' + tool)
+    outcome = 'returned'
+    try:
+        with contextlib.redirect_stdout(io.StringIO()), contextlib.redirect_stderr(io.StringIO()):
+            TOOL_RUNS[tool](pt, m, res, path)
+    except BaseException as e:      # noqa
+        if isinstance(e, (KeyboardInterrupt, SystemExit)):
+            raise
+        outcome = type(e).__name__
+    mutated = ['arg0: ' + d for d in diff(before, m)]
+    if not pe_before.equals(res.parameter_estimates):
+        mutated.append('results.parameter_estimates changed')
+    nstored = 0
+    try:
+        ctx = LocalDirectoryContext(path)
+        for name in ctx.list_all_names():
+            try:
+                me = ctx.retrieve_model_entry(name)
+            except Exception:
+                continue
+            rec.returned.append((f'tools.run_{tool}', me.model))
+            nstored += 1
+    except Exception:
+        pass
+    rec.events.append({'function': f'tools.run_{tool}', 'outcome': outcome, 'mutated': mutated, 'nmodels': 1,
+                       'args': ['<Model pheno>', "esttool='dummy'"], 'origin': {'source': 'tool run with the dummy estimation tool', 'of': tool},
+                       'stored_models': nstored})
+    return nstored
+
+
 def worker(job):
     """one process: job = {'mode': 'doctest'|'factory'|'replay', 'names': [...], 'variant': v, 'seed': s}
     returns events, and the exported returned models (as JSON-able wf specs)"""
@@ -669,6 +730,8 @@ def worker(job):
                 stats['hash_pairs'] = hash_history(rec, calls, job.get('hash_limit'))
         elif job['mode'] == 'covariates':
             stats['covariate_calls'] = run_covariates(rec, job['kinds'])
+        elif job['mode'] == 'tool':
+            stats['tool_models'] = run_tool_job(rec, job['tool'], job['workdir'])
     except BaseException as e:          # noqa
         if isinstance(e, (KeyboardInterrupt, SystemExit)):
             raise
